@@ -240,20 +240,29 @@ pub fn watched<T>(f: impl FnOnce() -> T) -> T {
 struct Slot {
     generation: AtomicU64,
     depth: AtomicU64,
+    dead: AtomicU64,
     cpu_clock: libc::clockid_t,
     case: Mutex<String>,
 }
 
 static SLOTS: Mutex<Vec<Arc<Slot>>> = Mutex::new(Vec::new());
 
+/// The thread's handle on its slot; dropping it (thread exit) marks the slot dead so
+/// that the watchdog forgets it (explorers that run cases on fresh OS threads create many).
+struct SlotHandle(Arc<Slot>);
+
+impl std::ops::Deref for SlotHandle { type Target = Slot; fn deref(&self) -> &Slot { &self.0 } }
+
+impl Drop for SlotHandle { fn drop(&mut self) { self.0.dead.store(1, Ordering::Relaxed); } }
+
 thread_local! {
-    static MY_SLOT: Arc<Slot> = {
+    static MY_SLOT: SlotHandle = {
         let mut cid: libc::clockid_t = 0;
         // SAFETY: pthread_self() is the calling thread; cid is a valid out pointer.
         let rc = unsafe { libc::pthread_getcpuclockid(libc::pthread_self(), &mut cid) };
-        let slot = Arc::new(Slot { generation: AtomicU64::new(0), depth: AtomicU64::new(0), cpu_clock: if rc == 0 { cid } else { -1 }, case: Mutex::new(String::new()) });
+        let slot = Arc::new(Slot { generation: AtomicU64::new(0), depth: AtomicU64::new(0), dead: AtomicU64::new(0), cpu_clock: if rc == 0 { cid } else { -1 }, case: Mutex::new(String::new()) });
         SLOTS.lock().unwrap().push(slot.clone());
-        slot
+        SlotHandle(slot)
     };
 }
 
@@ -276,17 +285,21 @@ fn spawn_watchdog(id: &'static str, level: &'static str, tier: Tier, spaces: Arc
     STARTED.call_once(|| {
         let limit: f64 = std::env::var("VERIF_RUNAWAY_CPU_S").ok().and_then(|v| v.parse().ok()).unwrap_or(tier.pick(120.0, 900.0));
         let _ = std::thread::Builder::new().name("runaway-watchdog".into()).spawn(move || {
-            // per slot: (generation last seen, CPU seconds of the thread when that generation was first seen)
-            let mut seen: Vec<(u64, f64)> = Vec::new();
+            // per live slot (by address): (generation last seen, CPU seconds of the thread when that generation was first seen)
+            let mut seen: std::collections::HashMap<usize, (u64, f64)> = std::collections::HashMap::new();
             loop {
                 std::thread::sleep(std::time::Duration::from_millis(1000));
-                let slots: Vec<Arc<Slot>> = SLOTS.lock().unwrap().clone();
-                for (i, s) in slots.iter().enumerate() {
+                let slots: Vec<Arc<Slot>> = { let mut g = SLOTS.lock().unwrap(); g.retain(|s| s.dead.load(Ordering::Relaxed) == 0); g.clone() };
+                let live: std::collections::HashSet<usize> = slots.iter().map(|s| Arc::as_ptr(s) as usize).collect();
+                seen.retain(|k, _| live.contains(k));
+                for s in slots.iter() {
+                    let key = Arc::as_ptr(s) as usize;
                     let g = s.generation.load(Ordering::Relaxed);
+                    if s.dead.load(Ordering::Relaxed) != 0 { continue }
                     let Some(cpu) = thread_cpu_s(s.cpu_clock) else { continue };
-                    if i >= seen.len() { seen.push((g, cpu)); continue }
-                    if s.depth.load(Ordering::Relaxed) == 0 || seen[i].0 != g { seen[i] = (g, cpu); continue }
-                    let burnt = cpu - seen[i].1;
+                    let Some(prev) = seen.get(&key).copied() else { seen.insert(key, (g, cpu)); continue };
+                    if s.depth.load(Ordering::Relaxed) == 0 || prev.0 != g { seen.insert(key, (g, cpu)); continue }
+                    let burnt = cpu - prev.1;
                     if burnt <= limit { continue }
                     // one guarded library call has consumed `burnt` CPU seconds without returning
                     let case = s.case.lock().map(|c| c.clone()).unwrap_or_default();
